@@ -82,7 +82,8 @@ Proof.
   destruct k' as [f' s' q'|d' dq' r' rq'|c' s' q' t'|d' dq' r' rq' t'|s' q' t'|d' r' rq' t' m'|b' t' q'|b' m' t' q'|b' t' q' tr'];
   cbn [kpath ksub loc fst snd]; intros H S; try discriminate S; try reflexivity;
   try (destruct f'); try (destruct c');
-  cbv [path_adf11 adf11_dir path_tcx path_pec pec_dir path_pectcx path_wvl path_bcx path_bstop path_bpop path_bem app] in H;
+  cbv [path_adf11 adf11_dir path_tcx path_pec pec_dir path_pectcx path_wvl path_bcx path_bstop path_bpop path_bem
+       path_tcx_s path_pec_s path_pec_d path_pectcx_s path_wvl_s path_bcx_s path_bstop_s path_bpop_s path_bem_s app] in H;
   discriminate H.
 Qed.
 
